@@ -646,6 +646,24 @@ func GenSession(prop string, seed uint64, thorough bool) *Scenario {
 			}
 		}
 	}
+	// C11: a send callback that takes time: the poll it belongs to has long been answered, the client polls again
+	if prop == "C11" && g.p(0.2) {
+		for ci := range sc.Clients {
+			c := &sc.Clients[ci]
+			if c.Transport != "polling" || len(c.Raw) > 0 || !g.p(0.6) {
+				continue
+			}
+			ms := 2*c.LatencyMs + c.PollGapMs + g.pick(2, 5, 15)
+			if ms+4*c.LatencyMs >= pt/3 {
+				continue
+			}
+			sc.Reent = append(sc.Reent, ReentSpec{Event: "callback", Call: "sleep", Ms: ms, Sess: c.Name, Nth: g.rng(1, 2)})
+			at := g.rng(30, sc.HorizonMs/2)
+			for k := 0; k < 2; k++ {
+				sc.App = append(sc.App, AppOp{AtMs: at + k*g.pick(1, 10, 40), Task: "slowcb-" + c.Name, Op: "send", Sess: c.Name, ID: fmt.Sprintf("%s.scb.%d", c.Name, k), Size: 8, CB: true})
+			}
+		}
+	}
 	// C11: a message listener that takes time keeps its data request in flight across virtual instants; an
 	// overlapping data request, an application close or a client abort is then aimed into that window
 	if prop == "C11" && !sc.FaultFree && g.p(0.4) {
